@@ -9,6 +9,7 @@ G: the same TLC runs emit every (type, class, route) as a JSON line; harness/cmd
 V: random deeper chains (depth 3..6, seeded) through the same driver and the same operators.
 """
 import json
+import os
 import re
 import threading
 
@@ -171,6 +172,10 @@ def matches(finding, o, what):
 def run(cx):
     cx.level = "model_checking"
     drv = cx.go_build("boundary")
+    if os.environ.get("VERIF_C08_DRIVER"):
+        # demonstration only: judge a driver binary built against another checkout of the repository
+        drv = os.environ["VERIF_C08_DRIVER"]
+        cx.notes.append("driver overridden by VERIF_C08_DRIVER=%s (not the current /repo tree)" % drv)
     nsh = min(vlib.NCPU, 12)
     depth, mdepth = (2, 1) if cx.quick() else (3, 2)
     nrandom = 4000 if cx.quick() else 60000
@@ -246,8 +251,11 @@ def run(cx):
     if todo:
         TWICE = 10 ** 7
         picked = {}
-        for i in todo:  # at most 40 cases of each kind are re-executed
-            key = (verdicts[i][1], by_id[i]["r"], by_id[i]["k"], re.sub(r"[0-9]+", "N", by_id[i].get("msg") or "")[:80])
+        for i in todo:  # at most 40 cases of each kind are re-executed; a known signature is a kind of its own
+            o = by_id[i]
+            f = next((f for f in known if matches(f, o, verdicts[i][1])), None)
+            key = ("known", f["id"]) if f is not None else (
+                verdicts[i][1], o["r"], o["k"], re.sub(r"[0-9]+", "N", o.get("msg") or "")[:80])
             if len(picked.setdefault(key, [])) < 40:
                 picked[key].append(i)
         req = []
@@ -272,14 +280,14 @@ def run(cx):
                 nknown[f["id"]] = nknown.get(f["id"], 0) + 1
                 cx.report_known(f)
                 continue
-            key = (what, o["r"], re.sub(r"[0-9]+", "N", (o.get("msg") or ""))[:80])
+            key = (what, o["r"], re.sub(r"[0-9]+", "N", (o.get("msg") or ""))[:40])
             groups.setdefault(key, []).append(dict(o, id=i))
         for ids in picked.values():
             for i in ids:
                 if i not in seen:
                     cx.notes.append("case %d (%s) disagreed once but not when re-executed (not reported)" % (
                         i, json.dumps({k: by_id[i][k] for k in ("t", "c", "r")})))
-    for (what, route, msg), items in sorted(groups.items(), key=lambda kv: -len(kv[1])):
+    for (what, route, msg), items in sorted(groups.items(), key=lambda kv: (min(len(x["t"]) for x in kv[1]), -len(kv[1]))):
         o = min(items, key=lambda x: (len(x["t"]), x["id"]))
         cx.violation("%s: route=%s type=%s class=%s outcome=%s %s (%d cases of this kind)" % (
             what, route, " ".join(o["t"]), o["c"], o["k"], (o.get("msg") or "")[:200], len(items)),
@@ -290,7 +298,8 @@ def run(cx):
 
     # ---- evidence
     judged = [o for o in obs if o["id"] not in witness_ids]
-    triples = set((tuple(o["t"]), o["c"], o["r"]) for o in judged)
+    triples = set((tuple(o["t"]), o["c"] if o["r"] != "write_lit" else json.dumps(o["w"], sort_keys=True), o["r"])
+                  for o in judged)
     outcomes = {}
     for o in judged:
         outcomes[o["k"]] = outcomes.get(o["k"], 0) + 1
